@@ -18,13 +18,15 @@ BUDGET_S = {'quick': 300, 'thorough': 3600}
 
 
 class LossMix(Mix):
-    def __init__(self, inters, fs, cut_points, kinds, bound_faults=1, flavour='tcp', lease=False, **kw):
+    def __init__(self, inters, fs, cut_points, kinds, bound_faults=1, flavour='tcp', lease=False, slow_close=False, **kw):
         if lease:
             # the client honours leases and the server never grants one: every request stays parked in the lease queue
             from rsocket.lease import LeasePublisher
             kw = dict(kw, client_kw={'honor_lease': True}, server_kw={'lease_publisher': LeasePublisher()})
         super().__init__(inters, flavour, fs, monitors_=(), **kw)
         self.params['lease'] = lease
+        self.slow_close = slow_close  # the application's on_close keeps awaiting until an explorer event lets it finish
+        self.params['slow_close'] = slow_close
         self.cut_points = cut_points
         self.kinds = kinds
         self.world_kw = dict(self.world_kw, fault_budget=bound_faults)
@@ -38,6 +40,26 @@ class LossMix(Mix):
         if 'close' in self.kinds:
             w.closers['client'] = lambda: w.loop.create_task(client.close())
             w.closers['server'] = lambda: w.loop.create_task(server.close())
+        if self.slow_close:
+            gates = w.objs['close_gates'] = []
+
+            def slow_on_close(h, rsocket):
+                async def slow():
+                    g = w.loop.create_future()
+                    gates.append(g)
+                    await g
+                return slow()
+
+            for sock in (client, server):
+                sock._handler.beh['on_close'] = slow_on_close
+
+            def release(w):
+                for g in gates:
+                    if not g.done():
+                        g.set_result(None)
+
+            from mc.world import Step
+            w.add_actor('closedone', [Step('on_close-finishes%d' % i, release, guard=lambda w: any(not g.done() for g in gates)) for i in range(3)])
 
     def check(self, w):
         w.advance(1.6)
@@ -104,6 +126,10 @@ class LossMix(Mix):
             # 4. nothing sent after the loss was handled: handled = first quiescence after on_close was delivered
             #    (a frame already queued may still be written while the teardown is in progress; that is not judged)
             oc = next((i for i in range(at, len(log)) if log[i][0] == 'api' and log[i][1] == ep and log[i][3] == 'on_close'), None)
+            if oc is not None and self.slow_close:
+                # the application's on_close is still running until the explorer lets it finish: the teardown (which stops the
+                # sender after on_close) is only complete then
+                oc = next((i for i in range(oc, len(log)) if log[i][0] == 'act' and log[i][1] == 'closedone'), len(log))
             if oc is None:
                 oc = next((i for i in range(at, len(log)) if log[i][0] == 't'), len(log))
             ti = next((i for i in range(oc, len(log)) if log[i][0] == 'q'), len(log))
@@ -194,6 +220,14 @@ def make_units(tier):
     for name, inters in lease_mixes.items():
         for kinds in (('eof',), ('rst',), ('close',)):
             units.append({'name': name, 'inters': [dict(d, size='S') for d in inters], 'fs': None, 'kinds': list(kinds), 'cut_points': 'boundaries', 'bound': 1, 'shard': [0, 1], 'lease': True})
+    # a second connection event while the application's on_close handler is still running (e.g. the peer's EOF, then close())
+    for name in ('rr+stream c', 'channel c + rr s'):
+        inters = mixes()[name]
+        for kinds in (('eof', 'close'), ('rst', 'close')):
+            K = 8
+            for k in range(K):
+                units.append({'name': name + ' / slow on_close', 'inters': [dict(d, size='S') for d in inters], 'fs': None, 'kinds': list(kinds), 'cut_points': 'boundaries',
+                              'bound': 2, 'shard': [k, K], 'slow_close': True, 'faults': 2, 'no_alts': True})
     for name, inters in slow_sender_mixes().items():
         for fs in (None, 64):
             for kinds in (('eof',), ('rst',), ('wr',), ('close',)):
@@ -218,7 +252,8 @@ def bounds(tier):
 
 def scenario_of(unit):
     return LossMix([Inter.from_spec(_full(d)) for d in unit['inters']], unit['fs'], unit['cut_points'], tuple(unit['kinds']),
-                   alts=('all',) if unit['bound'] > 1 else (), modes=('Q',), name=unit['name'], flavour=unit.get('flavour', 'tcp'), slow_sender=unit.get('slow_sender', False), lease=unit.get('lease', False))
+                   bound_faults=unit.get('faults', 1), slow_close=unit.get('slow_close', False),
+                   alts=('all',) if (unit['bound'] > 1 and not unit.get('no_alts')) else (), modes=('Q',), name=unit['name'], flavour=unit.get('flavour', 'tcp'), slow_sender=unit.get('slow_sender', False), lease=unit.get('lease', False))
 
 
 def run_unit(unit, part):
@@ -228,7 +263,7 @@ def run_unit(unit, part):
 def scenario_from(name, params):
     return LossMix([Inter.from_spec(d) for d in params['inters']], params['fs'], params['cut_points'], tuple(params['fault_kinds']),
                    bound_faults=params.get('faults', 1), alts=tuple(params['alts']), modes=tuple(params['modes']), name=name,
-                   flavour=params.get('flavour', 'tcp'), slow_sender=params.get('slow_sender', False), lease=params.get('lease', False))
+                   flavour=params.get('flavour', 'tcp'), slow_sender=params.get('slow_sender', False), lease=params.get('lease', False), slow_close=params.get('slow_close', False))
 
 
 def replay(rec):
